@@ -719,6 +719,7 @@ class PChan:
         self.cur = bytearray()
         self.rx_stream = bytearray()
         self.rx_frames = 0
+        self.rx_bytes = 0
         self.refill_pending = False
         self.txq: asyncio.Queue = asyncio.Queue()
         self.credit_event = asyncio.Event()
@@ -807,6 +808,7 @@ class Peer:
                                   f'are {[hex(c) for c in sorted(self.by_pcid)]}'))
             return
         ch.rx_frames += 1
+        ch.rx_bytes += len(payload)
         ch.ledger -= 1
         if ch.need is None:
             if len(payload) >= 2:
@@ -1111,8 +1113,9 @@ def run_b(ctx, case) -> None:
                     state = 'bumble_idle_holding_credits' if ch.ledger > 0 else 'bumble_out_of_credits'
                     fail(f'{tag}/progress/{state}',
                          f'{outcome} in phase {s["phase"]}: channel {k} (Bumble 0x{ch.bcid:04X} <-> peer 0x{ch.pcid:04X}): '
-                         f'{inc_w[0][1]} of {exp_w[k]} written bytes never reached the peer; the peer has granted '
-                         f'{ch.ledger} unused credit(s) (Bumble received frames granting it {held})')
+                         f'only {len(ch.rx_stream)} of {exp_w[k]} written bytes reached the peer as complete SDUs '
+                         f'({ch.rx_frames} K-frames, {ch.rx_bytes} frame bytes); the peer has granted {ch.ledger} credit(s) '
+                         f'that Bumble does not use (ledger of credit frames delivered to Bumble\'s host: {held})')
                 elif inc_s:
                     k = inc_s[0][0]
                     ch = peer.chans[k]
@@ -1160,8 +1163,8 @@ def run(ctx) -> None:
         for c in fixed_cases():
             replay(ctx, c)
     caps = [300, 2000, 2000, 6000, 20000] if ctx.quick else [300, 2000, 6000, 20000, 20000, 70000, 200000]
-    ctx.hyp('A', lambda c: run_a(ctx, c), a_case(caps), max_examples=ctx.n(560, 36000))
-    ctx.hyp('B', lambda c: run_b(ctx, c), b_case(caps), max_examples=ctx.n(700, 44000))
+    ctx.hyp('A', lambda c: run_a(ctx, c), a_case(caps), max_examples=ctx.n(640, 30000))
+    ctx.hyp('B', lambda c: run_b(ctx, c), b_case(caps), max_examples=ctx.n(800, 40000))
     for label, n in (
         ('A:le', 40), ('A:enh', 40), ('multi_frame_sdu', 80), ('credits_exhausted', 80), ('write_gt_mtu', 60),
         ('bidirectional', 60), ('delayed', 60), ('cids_differ', 60), ('cids_crossing', 10),
